@@ -363,6 +363,7 @@ func (m *Machine) exploreItem(fn *ssa.Function, prefix []PrefixEntry, q *workQue
 // prefix is kept (literals are rebuilt on replay).
 func (m *Machine) resetTerms() {
 	m.tt = NewTermTable()
+	m.solver.TT = m.tt
 	m.constCache = map[*ssa.Const]value{}
 	m.solver.PopTo(0)
 	m.solver.ResetBase()
